@@ -364,6 +364,7 @@ def eq_step(v0: int, v1: int, v2: int, v3: int, v4: int, w: int, pos: int, same:
 
 
 def jobs(tier):
+    T = 90 if tier == "quick" else 600
     C = 3 if tier == "quick" else 5
     out = []
     for cap in range(1, C + 1):
@@ -371,12 +372,12 @@ def jobs(tier):
             for op in OPS:
                 if op == "update":
                     for m in (0, 1, 2):
-                        out.append(Job("C06", "harness.c06", "step", {"op": op, "cap": cap, "n": n, "m": m}, timeout=600,
+                        out.append(Job("C06", "harness.c06", "step", {"op": op, "cap": cap, "n": n, "m": m}, timeout=T,
                                        name="step[%s,cap=%d,n=%d,m=%d]" % (op, cap, n, m), assoc=ASSOC))
                 else:
-                    out.append(Job("C06", "harness.c06", "step", {"op": op, "cap": cap, "n": n}, timeout=600,
+                    out.append(Job("C06", "harness.c06", "step", {"op": op, "cap": cap, "n": n}, timeout=T,
                                    name="step[%s,cap=%d,n=%d]" % (op, cap, n), assoc=ASSOC))
             for kind in ("dict", "lru-reversed", "shorter"):
-                out.append(Job("C06", "harness.c06", "eq_step", {"cap": cap, "n": n, "kind": kind}, timeout=600,
+                out.append(Job("C06", "harness.c06", "eq_step", {"cap": cap, "n": n, "kind": kind}, timeout=T,
                                name="eq[%s,cap=%d,n=%d]" % (kind, cap, n), assoc=ASSOC))
     return out
